@@ -251,8 +251,8 @@ Definition body_written (m : N) (body : bytes) : bytes :=
   if nonempty && (method_has_response_body m || (nonempty && negb (m =? M_HEAD))) then body else [].
 
 Section Send.
-  (** [utils::hardcoded_error_body] / [<host>/errors/<code>.html] *)
-  Variable error_body : N -> bytes.
+  (** [utils::hardcoded_error_body code message] / [<host>/errors/<code>.html] *)
+  Variable error_body : N -> option bytes -> bytes.
   (** [Extensions::resolve_package] for this request: the operator's Package extensions *)
   Variable package : head -> head.
 
@@ -261,7 +261,7 @@ Section Send.
     mkR0 11 code
          ([(B "content-type", B "text/html; charset=utf-8"); (B "content-encoding", B "identity")]
           ++ match msg with Some m => if value_ok m then [(B "reason", m)] else [] | None => [] end)
-         (error_body code) None.
+         (error_body code msg) None.
 
   (** [CriticalRequestComponents::apply_to_response] (not a stream) and the 416 replacement *)
   Definition apply_sanitize (r : reply0) : outcome reply0 :=
@@ -345,7 +345,7 @@ Section Conn.
   Variable q_head : Q -> bytes.                        (* the head as the client wrote it (only [drain = false] looks at it) *)
   (** [handle_cache] + the handler's use of the request body: [Some l] = it calls [read_to_bytes(l)] *)
   Variable app : A -> Q -> A * reply0 * option N.
-  Variable error_body : N -> bytes.
+  Variable error_body : N -> option bytes -> bytes.
   Variable package : Q -> head -> head.
   Variable too_many_body : bytes.
   (** [drain]: the repaired code discards the unread rest of the declared body after the response;
@@ -433,8 +433,26 @@ End Conn.
 (** ------------------------------------------------------------------------------------------
     E. the executable instance: the fixture host of harness/src/c08.rs
     ------------------------------------------------------------------------------------------ *)
-Definition ERR_BODY (code : N) : bytes := ERRPAGE.
-Definition TOO_MANY : bytes := B "TOOMANY".
+(** [utils::hardcoded_error_body] *)
+Definition hardcoded_error_body (code : N) (msg : option bytes) : bytes :=
+  let print_home := negb ((code =? 409) || (code =? 405) || (code =? 429)) in
+  let title := status_text code ++ [32] ++ reason code in
+  B "<!DOCTYPE html><html><head><meta name='color-scheme' content='dark light'><title>" ++ title
+  ++ B "</title></head><body><center><h1>" ++ title ++ B "</h1><hr>"
+  ++ (if print_home then B "An unexpected error occurred. <a href='/'>Return home</a>?" else [])
+  ++ match msg with Some m => B "<p>" ++ m ++ B "</p>" | None => [] end
+  ++ B "</center></body></html>".
+(** [limiting::get_too_many_requests] *)
+Definition TOO_MANY : bytes :=
+  B "<html><head><title>429 Too Many Requests</title></head><body><center><h1>429 Too Many Requests</h1><hr><p>You have requested resources from this server too many times. <i>Please Enhance Your Calm.</i></p><p>Try to access this page again in a minute. If this error persists, please contact the website administrator.</p></center></body></html>".
+
+(** [error::default_response] below the cache, with the real body *)
+Definition err_fat (code : N) (msg : option bytes) (spref : N) : fat :=
+  {| f_status := code;
+     f_headers := with_client_cache 3
+       ([(B "content-type", B "text/html; charset=utf-8"); (B "content-encoding", B "identity")]
+        ++ match msg with Some m => [(B "reason", m)] | None => [] end);
+     f_body := hardcoded_error_body code msg; f_spref := spref; f_compress := true |}.
 
 Record c8cfg := mkC8 {
   c8_base : config;                          (* Model/Fixture.v: cache, default_ext, ims, handlers, ... *)
@@ -442,20 +460,24 @@ Record c8cfg := mkC8 {
   c8_readers : list (bytes * N);             (* handler paths that call read_to_bytes(limit) *)
   c8_limit : N }.                            (* limiter max_requests; 0 = disabled *)
 
-(** [handle_request] below the handlers: files answer GET/HEAD, other methods get 405; else 404 *)
+(** [handle_request] below the handlers: GET/HEAD read the file (404 if there is none), every other method gets 405 *)
 Definition file_fat (content : bytes) : fat :=
   {| f_status := 200; f_headers := with_client_cache 3 []; f_body := content; f_spref := SP_FULL; f_compress := true |}.
 Definition compute_c08 (cfg : c8cfg) (hs : list N) (r : request) (ok : bool) : fat * list N * list bytes :=
-  if negb ok then compute_fix (cf_handlers (c8_base cfg)) hs r ok else
+  if negb ok then
+    (* [sanitize_request] tests the path first *)
+    ((if negb (path_part_ok (rq_path r)) then err_fat 400 (Some (B "path contains illegal segments (e.g. `./`)")) SP_NONE
+      else err_fat 416 None SP_NONE), hs, [])
+  else
   match find_handler_last (rq_path r) (cf_handlers (c8_base cfg)) O None with
   | Some _ => compute_fix (cf_handlers (c8_base cfg)) hs r ok
   | None =>
-      match assoc (rq_path r) (c8_files cfg) with
-      | Some content =>
-          if get_or_head (rq_method r) then (file_fat content, hs, [])
-          else (error_fat 405 SP_FULL, hs, [])
-      | None => (error_fat 404 SP_FULL, hs, [])
-      end
+      if get_or_head (rq_method r) then
+        match assoc (rq_path r) (c8_files cfg) with
+        | Some content => (file_fat content, hs, [])
+        | None => (err_fat 404 None SP_FULL, hs, [])
+        end
+      else (err_fat 405 None SP_FULL, hs, [])          (* whether or not the file exists *)
   end.
 
 Definition c8_now : N := 500.
@@ -532,7 +554,7 @@ Definition c8_run (drain head_rule : bool) (cfg : c8cfg) (reqs : list (c8req * b
   : list (option sent) * cstate :=
   conn_run c8req c8_state (fun q => rq_method (q_req q)) (fun q => header s_content_length (q_req q))
            (fun q => negb (q_nohost q)) q_raw_head
-           (fun st q => c8_app cfg st (q_req q)) ERR_BODY (fun _ h => h) TOO_MANY drain head_rule
+           (fun st q => c8_app cfg st (q_req q)) hardcoded_error_body (fun _ h => h) TOO_MANY drain head_rule
            ([], repeat 0 (length (cf_handlers (c8_base cfg)) + 8)) (Open [])
            (with_actions (c8_limit cfg) 1 reqs).
 
@@ -557,10 +579,15 @@ Definition x_predicted (report : list bytes) (unpredicted : bool) (o : option se
 Definition x_cstate (s : cstate) : xval :=
   match s with Open [] => XN 0 | Open _ => XN 3 | Closed => XN 1 | Unmodelled => XN 2 end.
 
-(** with the default extensions a cross-origin request is answered by the CORS machinery (C13), which this
-    model does not describe: such answers are framed (oracle) but not predicted *)
+(** with the default extensions a cross-origin request is answered by the CORS machinery (C13), and a
+    request that refuses codings may be answered 406 (C06); this model describes neither: such answers are
+    framed (oracle) but not predicted *)
 Definition unpredicted (cfg : c8cfg) (q : c8req) : bool :=
-  cf_default_ext (c8_base cfg) && match header (B "origin") (q_req q) with Some _ => true | None => false end.
+  (cf_default_ext (c8_base cfg) && match header (B "origin") (q_req q) with Some _ => true | None => false end)
+  || match header (B "accept-encoding") (q_req q) with
+     | Some v => contains_sub (B "q=0") v          (* content negotiation may answer 406 (C06) *)
+     | None => false
+     end.
 
 Definition run_conn_gen (drain head_rule : bool) (x : xval) : xval :=
   match x with
